@@ -50,9 +50,17 @@ func init() {
 
 const rssLimitKB = 8 * 500 * 1024 // 8 x the 500 MB allocation limit
 
+// gnoExceptionMarker: the keeper renders an uncaught Gno panic (gno.UnhandledPanicError) as
+// "VM panic: <value>\nStacktrace:\npanic: <value>\n<gno frames>"; any other recovered Go value gets the
+// machine's plain stack trace without the "panic: " line (vm keeper, doRecoverInternal).
+const gnoExceptionMarker = "Stacktrace:\npanic: "
+
 var pkgClause = regexp.MustCompile(`(?m)^package\s+([A-Za-z_][A-Za-z_0-9]*)`)
 
-var goRuntimeErr = regexp.MustCompile(`index out of range \[-?\d+\]( with length \d+)?|slice bounds out of range \[|invalid memory address or nil pointer dereference|interface conversion: |integer divide by zero|assignment to entry in nil map|hash of unhashable type`)
+// "hash of unhashable type" counts only when it names a Go type of the interpreter: the VM raises the
+// same text with a Gno type ("[]int") deliberately, as a recoverable Gno panic (values.go, ComputeMapKey;
+// gnovm/tests/files/range13.gno expects it), which is one of the permitted endings.
+var goRuntimeErr = regexp.MustCompile(`index out of range \[-?\d+\]( with length \d+)?|slice bounds out of range \[|invalid memory address or nil pointer dereference|interface conversion: |integer divide by zero|assignment to entry in nil map|hash of unhashable type [\[\]*]*(gnolang|gno|std|vm)\.`)
 
 // ---------- corpus
 
@@ -145,6 +153,24 @@ func pathologies(quick bool) [][2]string {
 	}
 	var out [][2]string
 	add := func(name, body string) { out = append(out, [2]string{name, "package main\n\n" + body}) }
+	// Run-time errors of the Gno program itself: the VM raises them as recoverable Gno panics whose text
+	// mirrors Go's ("runtime error: index out of range [5] with length 3"). They are permitted endings and
+	// must not be confused with a Go fault of the interpreter carrying the same text.
+	for _, rp := range [][2]string{
+		{"index", "func main() { a := []int{1, 2, 3}; i := 5; println(a[i]) }\n"},
+		{"index-array", "func main() { var a [3]int; i := -1; println(a[i+0]) }\n"},
+		{"index-string", "func main() { s := \"abc\"; i := 7; println(s[i]) }\n"},
+		{"slice-bounds", "func main() { a := []int{1, 2, 3}; i, j := 2, 9; println(len(a[i:j])) }\n"},
+		{"nil-deref", "type T struct{ X int }\n\nfunc main() { var p *T; println(p.X) }\n"},
+		{"nil-map-assign", "func main() { var m map[string]int; m[\"a\"] = 1 }\n"},
+		{"divide", "func main() { x, y := 1, 0; println(x / y) }\n"},
+		{"iface-conversion", "func main() { var x any = \"s\"; println(x.(int)) }\n"},
+		{"iface-conversion-nil", "func main() { var x any; println(x.(int)) }\n"},
+		{"unhashable-key", "func main() { m := map[any]int{}; var k any = []int{1}; m[k] = 1 }\n"},
+		{"recovered-index", "func main() { defer func() { println(recover() != nil) }(); a := []int{}; i := 1; println(a[i]) }\n"},
+	} {
+		add("program-runtime-error:"+rp[0], rp[1])
+	}
 	for _, d := range depths {
 		ds := strconv.Itoa(d)
 		add("nest-paren-"+ds, "func main() { println("+rep("(", d)+"1"+rep(")", d)+") }\n")
@@ -298,7 +324,7 @@ func child(c *vf.Ctx) {
 		default:
 			e := tr.ErrString + "\n" + tr.Log
 			switch {
-			case goRuntimeErr.MatchString(e):
+			case goRuntimeErr.MatchString(e) && !strings.Contains(e, gnoExceptionMarker):
 				outcome = "internal-fault"
 				detail = goRuntimeErr.FindString(e) + " | " + firstFrames(tr.Log)
 			case strings.Contains(e, "recovered:") && strings.Contains(e, "goroutine "):
@@ -397,7 +423,9 @@ func run(c *vf.Ctx) {
 	c.Parallel(nChildren, nChildren, 0, func(bi int, _ *rand.Rand) {
 		runBatch(c, bi, batches[bi], inputs, names)
 	})
-	c.Assume("internal faults are recognised by the message forms of Go runtime.Error values; interpreter panics with other wording (e.g. 'unexpected type') are counted as gno-panic/validation outcomes, not judged")
+	c.Assume("internal faults are recognised by the message forms of Go runtime.Error values in a tx error that is not rendered as an uncaught Gno panic; interpreter panics with other wording (e.g. 'unexpected type') are counted as gno-panic/validation outcomes, not judged")
+	// the programs that fail at run time by themselves must have been seen ending as Gno panics
+	c.RequireCounter("program_runtime_errors_ending_as:gno-panic", 8)
 	c.Assume("inputs are submitted with 200M gas; the allocation limit is the VM default; RSS bound = 8 x 500 MB")
 	c.RequireCounter("inputs_executed", int64(len(inputs)*9/10))
 	c.RequireCounter("outcome:success", 20)
@@ -478,6 +506,9 @@ func runBatch(c *vf.Ctx, bi int, idxs []int, inputs, names []string) {
 				c.Sample(map[string]any{"input": names[ix], "source_head": clip(inputs[ix], 200), "outcome": outcome, "ms": f[2], "gas": f[3]})
 			}
 			w := map[string]any{"input_name": names[ix], "source": clip(inputs[ix], 20000), "outcome": outcome, "detail": f[4]}
+			if strings.Contains(names[ix], "program-runtime-error:") {
+				c.Count("program_runtime_errors_ending_as:"+outcome, 1)
+			}
 			switch outcome {
 			case "internal-fault":
 				c.Violation("internal-fault:"+faultSite(f[4]), w, "input %s: tx error carries a Go runtime fault of the interpreter: %s", names[ix], f[4])
